@@ -144,7 +144,21 @@ fn observe(bytes: &[u8]) -> String {
             let sr = grp(|| { let (a, b) = m.bgp_open_sent_rcvd();
                 if a.as_ref() == m.bgp_open_sent().as_ref() && b.as_ref() == m.bgp_open_rcvd().as_ref() { "same".into() } else { "differs".into() } });
             let t = grp(|| tlvs_str(m.information_tlvs()));
-            format!("PU {} pph={} local={} sent={} rcvd={} pair={} tlvs={}", head, p, l, s, r, sr, t)
+            // the configuration-deriving accessors (their *values* are C12's subject) must not panic
+            let c = grp(|| {
+                let _ = m.session_config();
+                let _ = m.pph_session_config();
+                let _ = m.supported_protocols();
+                let (a, b) = m.bgp_open_sent_rcvd();
+                for o in [&a, &b] {
+                    let _ = o.my_asn(); let _ = o.holdtime(); let _ = o.identifier(); let _ = o.version();
+                    let _ = o.four_octet_capable(); let _ = o.addpath_families_vec();
+                    let _ = o.multiprotocol_ids().count(); let _ = o.get_software_version();
+                    let _ = o.capabilities().count(); let _ = o.parameters().count();
+                }
+                "ok".into()
+            });
+            format!("PU {} pph={} local={} sent={} rcvd={} pair={} tlvs={} cfg={}", head, p, l, s, r, sr, t, c)
         }
         Message::InitiationMessage(m) => {
             let t = grp(|| tlvs_str(m.information_tlvs()));
